@@ -68,7 +68,7 @@ fn c16_map_standard_nomean() {
     kani::cover!(!with_std);
 }
 
-// @unit class=bounded tier=thorough mem=heavy bound="n=2,p=2,|x|<=8,|offset|<=4,scale in 1..4,range ends |.|<=4, integer-valued f32" timeout=900 fns=linfa_preprocessing::linear_scaling::LinearScaler::transform
+// @unit class=bounded tier=quick mem=heavy bound="n=2,p=2,|x|<=8,|offset|<=4,scale in 1..4,range ends |.|<=4, integer-valued f32" timeout=900 fns=linfa_preprocessing::linear_scaling::LinearScaler::transform
 #[kani::proof]
 #[kani::unwind(7)]
 #[kani::stub(alloc::fmt::format, fmt_stub)]
